@@ -653,6 +653,38 @@ func c18CommandGoroutines(c *core.Ctx) {
 			}
 		}
 	}
+	// a terminal that takes no output for a while (stopped with XOFF, a slow remote session) as standard output, a log
+	// whose malformed line comes after many records: the records before the error are shown, all of them, as through a
+	// pipe - however far the reading side ran ahead of the writing side
+	if c.HR != "" {
+		var sb strings.Builder
+		sb.WriteString("2021/01/01:\n  first: 1\n")
+		for k := 0; k < 70; k++ {
+			fmt.Fprintf(&sb, "2021/02/%02d:\n  %s %d: %d\n", 1+k%28, strings.Repeat("long name ", 9), k, k+1)
+		}
+		sb.WriteString("  - broken\n2021/03/01:\n  after: 1\n")
+		dir := filepath.Join(c.Work, "stalled")
+		run.WriteFiles(dir, map[string]string{"log.yaml": sb.String(), "food.yaml": book})
+		for _, cmd := range [][]string{{"print"}, {"csv", "log"}, {"reg"}} {
+			args := append([]string{"--no-color", "-d", "food.yaml", "-l", "log.yaml"}, cmd...)
+			ref := run.Exec(c.HR, args, run.ExecOpts{Dir: dir})
+			for round := 0; round < 6; round++ {
+				res, ok := run.ExecPtyStalled(c.HR, args, run.ExecOpts{Dir: dir}, 150*time.Millisecond)
+				if !ok {
+					c.Inconclusive("stalled-terminal", "no pseudo-terminal available")
+					break
+				}
+				c.Eval(1)
+				c.Count("runs_on_a_stalled_terminal", 1)
+				c.Nontrivial("stalled", joinArgs(cmd), fmt.Sprint(round))
+				if res.Out != ref.Out || (res.Exit == 0) != (ref.Exit == 0) {
+					c.Violation(strings.Join(cmd, " ")+"|stalled-terminal-changes-the-report", fmt.Sprintf("%s on a log whose 72nd record is malformed, stdout a terminal that is not read for 150 ms: exit %d and %d bytes of report; through a pipe exit %d and %d bytes", joinArgs(cmd), res.Exit, len(res.Out), ref.Exit, len(ref.Out)),
+						caseDoc{Files: map[string]string{"log.yaml": sb.String(), "food.yaml": book}, Args: args, Note: "stdout is a pseudo-terminal whose master side is read only after 150 ms", Expected: resDoc(ref), Observed: resDoc(res)})
+					break
+				}
+			}
+		}
+	}
 	r := c.Rng("goroutines", 0)
 	cmds := [][]string{{"stats"}, {"reg"}, {"bal"}, {"csv", "log"}, {"csv", "database"}, {"csv", "database-resolved"}, {"print"}, {"summary", "2021/01/24"}, {"report", "totals"}, {"report", "quantity"}, {"report", "unresolved"}, {"report", "element-total", "x"}, {"lint", "log.yaml"}, {"lint", "food.yaml"}}
 	for k := 0; k < 8; k++ {
